@@ -257,7 +257,10 @@ def run_job(spec):
         if not ex.complete:
             res['inconclusive'].append('exploration stopped before all paths were visited (budget)')
         if res['feasible_paths'] == 0:
-            res['harness_errors'].append('vacuous job: no feasible path reached the assertions')
+            if res['unsupported'] or res['inconclusive']:
+                res['inconclusive'].append('no path reached the assertions (all ended in an unsupported construct / solver unknown)')
+            else:
+                res['harness_errors'].append('vacuous job: no feasible path reached the assertions')
     except JobTimeout:
         res['inconclusive'].append('job exceeded its time budget of %ss (a path did not terminate in time)'
                                    % spec.get('deadline_s', 600))
